@@ -2,6 +2,7 @@ package sim
 
 import (
 	"fmt"
+	"sort"
 	"strings"
 	"time"
 
@@ -18,7 +19,12 @@ type cli struct {
 	spec    *ClientSpec
 	conn    *cconn
 	nextPID uint16
+	// client-side session state for QoS>0 publishes it sent (for the "retransmit" op)
+	outPub map[uint16]*mqttc.Packet // PUBLISH sent, not yet PUBACK'ed / PUBREC'ed
+	outRel map[uint16]bool          // PUBREC received (or PUBREL sent), PUBCOMP outstanding
 }
+
+var retransOp = &OpRec{Idx: -1, Done: true, Inv: 0, Op: &Op{K: "retransmit"}}
 
 type outPkt struct {
 	at    time.Time
@@ -352,6 +358,9 @@ func (c *cconn) onPacket(w *World, p *mqttc.Packet, step int) {
 	case mqttc.CONNACK:
 		c.connack = p
 		c.connackStep = step
+		if c.cli != nil && (!p.SessionPresent || p.Code != 0) {
+			c.cli.outPub, c.cli.outRel = nil, nil
+		}
 		if o := c.connectOp; o != nil {
 			o.Ack = p
 			w.complete(o, step)
@@ -379,12 +388,24 @@ func (c *cconn) onPacket(w *World, p *mqttc.Packet, step int) {
 		}
 		c.ackLater(w, &mqttc.Packet{Type: mqttc.PUBCOMP, PID: p.PID})
 	case mqttc.PUBACK:
+		if c.cli != nil {
+			delete(c.cli.outPub, p.PID)
+		}
 		if o := c.awaiting[key(mqttc.PUBACK, p.PID)]; o != nil {
 			delete(c.awaiting, key(mqttc.PUBACK, p.PID))
 			o.Ack = p
 			w.complete(o, step)
 		}
 	case mqttc.PUBREC:
+		if c.cli != nil {
+			delete(c.cli.outPub, p.PID)
+			if p.Code < 0x80 {
+				if c.cli.outRel == nil {
+					c.cli.outRel = map[uint16]bool{}
+				}
+				c.cli.outRel[p.PID] = true
+			}
+		}
 		if o := c.awaiting[key(mqttc.PUBREC, p.PID)]; o != nil {
 			delete(c.awaiting, key(mqttc.PUBREC, p.PID))
 			o.Rec = p
@@ -403,6 +424,9 @@ func (c *cconn) onPacket(w *World, p *mqttc.Packet, step int) {
 			c.send(w, &mqttc.Packet{Type: mqttc.PUBREL, PID: p.PID}, nil, 0)
 		}
 	case mqttc.PUBCOMP:
+		if c.cli != nil {
+			delete(c.cli.outRel, p.PID)
+		}
 		if o := c.awaiting[key(mqttc.PUBCOMP, p.PID)]; o != nil {
 			delete(c.awaiting, key(mqttc.PUBCOMP, p.PID))
 			o.Ack = p
@@ -541,6 +565,10 @@ func (w *World) issue(o *OpRec) {
 			} else {
 				c.awaiting[key(mqttc.PUBREC, pid)] = o
 			}
+			if cl.outPub == nil {
+				cl.outPub = map[uint16]*mqttc.Packet{}
+			}
+			cl.outPub[pid] = p
 		}
 		o.Sent = p
 		c.send(w, p, o, 0)
@@ -564,6 +592,36 @@ func (w *World) issue(o *OpRec) {
 			c.send(w, &mqttc.Packet{Type: mqttc.PUBREL, PID: op.PID}, nil, 0)
 			w.Faults["client.dup_pubrel"]++
 		}
+	case "retransmit":
+		// what a conforming client does after resuming its session: PUBLISH packets without PUBACK/PUBREC
+		// again with DUP=1, PUBREL for those already PUBREC'ed, in packet id order
+		var pids []int
+		for pid := range cl.outPub {
+			pids = append(pids, int(pid))
+		}
+		sort.Ints(pids)
+		for _, pid := range pids {
+			d := *cl.outPub[uint16(pid)]
+			d.Dup = true
+			if d.QoS == 1 {
+				c.awaiting[key(mqttc.PUBACK, d.PID)] = retransOp
+			} else {
+				c.awaiting[key(mqttc.PUBREC, d.PID)] = retransOp
+			}
+			c.send(w, &d, nil, 0)
+			w.Faults["client.retransmit_publish"]++
+		}
+		pids = nil
+		for pid := range cl.outRel {
+			pids = append(pids, int(pid))
+		}
+		sort.Ints(pids)
+		for _, pid := range pids {
+			c.awaiting[key(mqttc.PUBCOMP, uint16(pid))] = retransOp
+			c.send(w, &mqttc.Packet{Type: mqttc.PUBREL, PID: uint16(pid)}, nil, 0)
+			w.Faults["client.retransmit_pubrel"]++
+		}
+		c.markDelivered(w, o)
 	case "release_acks":
 		held := c.heldAcks
 		c.heldAcks = nil
